@@ -19,6 +19,7 @@ import Driver.C17
 import Driver.C18
 import Driver.C15
 import Driver.C01
+import Driver.C01Sql
 open ImmuModel
 
 namespace Driver
@@ -52,6 +53,7 @@ def step (st : State) (line : String) : State × String :=
   | "c01" :: "hist.new" :: rest => let (s, o) := C01.stepSt st.c01 ("hist.new" :: rest); ({ st with c01 := s }, o)
   | "c01" :: "hist.add" :: rest => let (s, o) := C01.stepSt st.c01 ("hist.add" :: rest); ({ st with c01 := s }, o)
   | "c01" :: "dproof" :: rest => let (s, o) := C01.stepSt st.c01 ("dproof" :: rest); ({ st with c01 := s }, o)
+  | "c01" :: "vrow" :: rest => (st, C01Sql.vrow rest)
   | "c01" :: rest => (st, C01.step rest)
   | "c15" :: rest => let (s, o) := C15.step st.c15 rest; ({ st with c15 := s }, o)
   | "c18" :: rest => let (s, o) := C18.step st.c18 rest; ({ st with c18 := s }, o)
